@@ -9,6 +9,7 @@ Reference: URI resolution with posixpath against the URI of the template the ref
 TemplateLookupException when nothing is there.
 """
 import os
+import re
 import posixpath
 import shutil
 import sys
@@ -268,6 +269,7 @@ class Model:
         self.events = set()
         self.touched = set()   # templates whose defs were used without their body being rendered
         self.bodied = set()
+        self.ns_decl_ctx = {}
 
     @property
     def dflt(self):
@@ -302,6 +304,13 @@ class Model:
         w = self.out.append
         self.bodied.add(path)
         self.check_namespaces(f)
+        if any(k_ == "ns_body" for k_, _u, _t in f["refs"]):
+            # the namespaces a template declares are made once per render (again whenever an inheriting template is
+            # set up) and keep the context of that moment: when the same declaring template runs under contexts that
+            # hold different values for `pa`, which of them a later ns.body() works on is not modelled
+            self.ns_decl_ctx.setdefault(path, set()).add(self.dflt)
+            if len(self.ns_decl_ctx[path]) > 1:
+                self.events.add("ns-context-ambiguous")
         w("{F:%s cv=%s%s " % (path, self.cv, (" pa=%s" % pa) if f["page"] else ""))
         # `next` exists only in the body of a template that is being rendered as somebody's base: an included or
         # namespace target, and the inheriting template itself, have no such link
@@ -441,6 +450,9 @@ def run_set(files, backing, res, rc, ctx_pa=None):
         res.count("sets_rendered")
         if got != exp and exp[0] == "out" and got == ("exc", "TemplateLookupException") and m.lazily_bad():
             res.count("not_asserted_lazy_namespace")
+        elif got != exp and "ns-context-ambiguous" in m.events and got[0] == exp[0] == "out" and re.sub(r" pa=\w*", " pa=?", got[1]) == re.sub(r" pa=\w*", " pa=?", exp[1]):
+            # everything but the context-supplied <%page> values agrees (see Model.body)
+            res.count("not_asserted_namespace_context_of_first_use")
         elif got != exp:
             fid = None
             if True:  # (the value may also come from an in-def include, not only from render())
